@@ -52,6 +52,7 @@ deriving DecidableEq, Repr
 inductive Outcome where
   | next (st : List Item) (h : Heap)
   | throw (ex : Item) (st : List Item) (h : Heap)   -- catchable VM exception
+deriving DecidableEq
 
 abbrev E := Except String
 
@@ -162,7 +163,7 @@ def flattenKV : List (Item × Item) → List Item
 
 def fillItem (t : UInt8) : Item :=
   if t == tBoolean then .bool false
-  else if t == tInteger then .int 0
+  else if t == tInteger then .int ⟨0, by decide⟩
   else if t == tByteString then .bytes []
   else .null
 
